@@ -46,6 +46,6 @@ def engines():
 def sqa_table(name, cols):
     import sqlalchemy as sqa
 
-    ty = {"int32": sqa.Integer, "int8": sqa.SmallInteger, "uint16": sqa.Integer, "float32": sqa.Float, "int": sqa.BigInteger, "bool": sqa.Boolean, "str": sqa.String, "float": sqa.Double, "date": sqa.Date,
+    ty = {"int32": sqa.Integer, "int8": sqa.SmallInteger, "uint16": sqa.Integer, "uint64": sqa.BigInteger, "float32": sqa.Float, "int": sqa.BigInteger, "bool": sqa.Boolean, "str": sqa.String, "float": sqa.Double, "date": sqa.Date,
           "datetime": sqa.DateTime}
     return sqa.Table(name, sqa.MetaData(), *[sqa.Column(n, ty[t]) for n, t in cols])
